@@ -256,7 +256,15 @@ def observe_frames(frames):
                 hist = [{"pos": [float(v) for v in h.position], "ori": [float(v) for v in h.orientation.q],
                          "size": [float(v) for v in h.shape.size]} for h in o.tracked_path]
             fp = [[float(c[0]), float(c[1])] for c in list(st.shape.footprint.exterior.coords)]
+            # the stored transforms applied through the PUBLIC API (position and orientation together)
+            to_map = None
+            try:
+                tp_, tr_ = fr.transforms.transform((o.frame_id, FrameID.MAP), tuple(st.position), st.orientation)
+                to_map = {"pos": [float(v) for v in tp_], "ori": [float(v) for v in tr_.q]}
+            except (KeyError, ValueError):
+                pass
             objs.append({
+                "to_map": to_map,
                 "uuid": o.uuid, "label": o.semantic_label.label.name, "label_type": type(o.semantic_label.label).__name__,
                 "name": o.semantic_label.name,
                 "attrs": list(o.semantic_label.attributes), "size": [float(v) for v in st.size], "footprint": fp,
@@ -588,6 +596,11 @@ def oracle_config(ds, task, frame, merge, o):
                 bo = qmul([Fraction(x) for x in tf["rot"]], qmul(qc, mo))
                 if not close(back, p, 1e-8) or not same_rotation(bo, q, 1e-8):
                     return f"{w}: the stored ego-to-map transform maps the loaded pose to {[float(x) for x in back]}, annotated {_vf(a['t'])}"
+                # ... and so does TransformDict.transform((BASE_LINK, MAP), position, orientation) when the lidar sits at the ego origin
+                if (qc, tc) == ([1, 0, 0, 0], [0, 0, 0]) and ob.get("to_map") is not None:
+                    if not close(ob["to_map"]["pos"], p, 1e-8) or not same_rotation(ob["to_map"]["ori"], q, 1e-8):
+                        return (f"{w}: frame.transforms.transform((BASE_LINK, MAP), pose) gives {ob['to_map']['pos']} {ob['to_map']['ori']}, "
+                                f"annotated global pose {_vf(a['t'])} {_vf(a['q']) if 'q' in a else ''}")
             # tracking history
             if task != "tracking":
                 if ob["hist"] is not None:
